@@ -15,7 +15,7 @@ RULE = ("differential exploration, every pair run as two fresh assemblies of the
         "addresses, base settled first / last / defaulted; (2) linking every ordered pair and triple of a 6-file alphabet vs the "
         "concatenated text; (3) insert_file of every length in the bound vs the same bytes as .byte data, at even and odd addresses; "
         "(4) .end at every position of every file of 1-3 file links and inside an include vs the text with the rest of that file removed; "
-        "(5) .once files included 1-3 times directly and through another include vs a single inclusion. Oracle: identical status, base, "
+        "(5) .once files included 1-3 times directly and through another include vs a single inclusion, each such project assembled three times by one process under the same path names. Oracle: identical status, base, "
         "bytes (and one absolute anchor per family). state = one program pair; transition = one body statement / file / inclusion added")
 ASSUMPTIONS = ["differential oracle: both sides are produced by the implementation; each family carries absolute anchors computed by hand",
                "labels and assignments are not allowed inside .repeat and are not generated there"]
@@ -237,6 +237,7 @@ def check(case, r, tier):
         # the same file reached through differently spelled paths is still the same file
         elems = {"O": (".include \"once.mac\"", b"\x11\x12"), "P": (".include \"plain.mac\"", b"\x19"), "V": (".include \"via.mac\"", None), "B": (".byte 7", b"\x07"),
                  "o": (".include \"./once.mac\"", b"\x11\x12"), "q": (".include \"sub/../once.mac\"", b"\x11\x12"), "D": (".include \"sub/deep.mac\"", None)}
+        shared_root = driver.prepare_tree(tree)
         for n in (1, 2, 3, 4):
             for combo in itertools.product("OPVBoqD" if n <= 3 else "OPVB", repeat=n):
                 text = "\n".join(elems[e][0] for e in combo) + "\n"
@@ -260,6 +261,18 @@ def check(case, r, tier):
                 r.trans += n
                 good = out.status == "ok" and out.code == want
                 r.ran(out.cls() if not good else "ok", key=("once", combo))
+                if good and n <= 3:
+                    # the same project assembled again by the same process (the same path names): '.once' counts per assembly
+                    for again in (1, 2):
+                        out = driver.assemble([("m.mac", text)], root=shared_root)
+                        r.states += 1
+                        good = out.status == "ok" and out.code == want
+                        r.ran(out.cls() if not good else "ok", key=("once-again", combo, again))
+                        if not good:
+                            r.violation("once:assembled-again", ".once: the same project assembled again by the same process gives another result (%s, assembly %d)" % ("".join(combo), again + 1),
+                                        {"k": "once-prog", "text": text, "again": 3, "want": want.hex()}, want.hex(), out.brief())
+                            good = True
+                            break
                 if not good:
                     r.violation("once", ".once: a file must contribute only the first time it is included (%s)" % "".join(combo),
                                 {"k": "once-prog", "text": text}, want.hex(), out.brief())
@@ -287,6 +300,21 @@ def check(case, r, tier):
                     if not good:
                         r.violation("once:" + tag, ".once: a guarded file that is also a linked file contributes once per assembly (%s, %s)" % ("".join(combo), tag),
                                     {"k": "once-prog", "files": [list(f) for f in files], "want": w.hex()}, w.hex(), out.brief())
+        import shutil
+        shutil.rmtree(shared_root, ignore_errors=True)
+        return
+    if k == "once-prog" and case.get("again"):
+        import shutil
+        root = driver.prepare_tree(ONCE_TREE)
+        try:
+            for _ in range(case["again"]):
+                out = driver.assemble([("m.mac", case["text"])], root=root)
+                r.ran(out.cls(), key=None)
+                if not (out.status == "ok" and out.code == bytes.fromhex(case["want"])):
+                    r.violation("once:assembled-again:replay", "recorded program, assembled %d times by one process" % case["again"], case, case["want"], out.brief())
+                    break
+        finally:
+            shutil.rmtree(root, ignore_errors=True)
         return
     if k == "once-prog":
         out = driver.assemble([tuple(f) for f in case["files"]] if "files" in case else [("m.mac", case["text"])], tree=case.get("tree") or ONCE_TREE)
